@@ -30,7 +30,7 @@ m = {
          "kind_free_text": "supervisor + child per check, seeds/tiers, evidence writer, replay files, known-findings matcher, cross-process monotonic clock, shared-memory words"},
     ],
     "checks": [],
-    "notes": "Technique family: runtime monitoring. Every check runs the real code from /repo's working tree (-tags verif, -race where the code under test is concurrent) under generated/hostile workloads and decides with an independent oracle over what was observed. Exit 0 = held on what was observed, 1 = VIOLATION, 3 = INCONCLUSIVE (never folded into either). Known findings: /verif/known_findings.txt (read, never written, at run time): ten 'fixed:' entries (repaired by fix: commits in /repo) and one 'open:' entry for C12 (a Put failing in its copy pass damages the output of an overlapping Put of the same bytes), for which C12 prints a KNOWN-FINDING line and exits 0.",
+    "notes": "Technique family: runtime monitoring. Every check runs the real code from /repo's working tree (-tags verif, -race where the code under test is concurrent) under generated/hostile workloads and decides with an independent oracle over what was observed. Exit 0 = held on what was observed, 1 = VIOLATION, 3 = INCONCLUSIVE (never folded into either). Known findings: /verif/known_findings.txt (read, never written, at run time): eleven 'fixed:' entries (repaired by fix: commits in /repo) and one 'open:' entry for C12 (a Put failing in its copy pass damages the output of an overlapping Put of the same bytes), for which C12 prints a KNOWN-FINDING line and exits 0.",
     "not_applicable": [],
 }
 for pid in all_ids:
